@@ -97,12 +97,22 @@ class Session(object):
 
     def set_world(self, world, order=None):
         self.world = world
+        self.order = order
         with open(os.path.join(self.dir, self.modname + ".py"), "w") as f:
             f.write(progs.render_world(world, self.extmod, order))
         with open(os.path.join(self.dir, self.extmod + ".py"), "w") as f:
             f.write(progs.render_ext(world))
         self.real.load_world(self.dir, self.modname, self.extmod)
         self.ref.call(cmd="world", dir=self.dir, module=self.modname, extmod=self.extmod)
+
+    def mutate_in_place(self, world, stmt):
+        """a tracked variable is updated in place in the running processes (no reload); the file on disk follows, so
+        that a later restart reads the same state"""
+        self.world = world
+        with open(os.path.join(self.dir, self.modname + ".py"), "w") as f:
+            f.write(progs.render_world(world, self.extmod, getattr(self, "order", None)))   # same layout: only the literal changes
+        self.real.exec_stmt(stmt)
+        self.ref.call(cmd="exec", stmt=stmt)
 
     def restart(self):
         """fresh interpreter state on the same store lineage (memory stores do not survive a real restart)"""
